@@ -116,7 +116,7 @@ def _kinds(c) -> str:
     return "lexer:" + "+".join(s["k"] for s in c["src"] if s["k"] != "text") + f":v{c['v']}"
 
 
-def judge(module: str, cfg: str, records: list, chunk: int = 4000):
+def judge(module: str, cfg: str, records: list, chunk: int = 20000):
     """Hand observations to the observer machine of `module`; returns {index: violated clause}, tlc results."""
     if not records:
         raise MachineryError("no observations to judge (vacuous)")
@@ -204,10 +204,10 @@ DELIM_RUNS = {
               dict(Progs="kitchen", DSets="sampled", Lo=1, Hi=400, **TXT),
               dict(Progs="tags", DSets="named", Lo=1, Hi=0, **TXT),
               dict(Progs="tags", DSets="sampled", Lo=401, Hi=480, **TXT)],
-    "thorough": [dict(Progs="wide_v1", DSets="named", Lo=1, Hi=0, T0="TextsA", T1="TextsB", T2="TextsC", Bodies="BodiesB"),
-                 dict(Progs="wide_v2", DSets="named", Lo=1, Hi=0, T0="TextsA", T1="TextsB", T2="TextsC", Bodies="BodiesB"),
-                 dict(Progs="wide_v3", DSets="named", Lo=1, Hi=0, T0="TextsA", T1="TextsB", T2="TextsC", Bodies="BodiesB"),
-                 dict(Progs="wide_v4", DSets="named", Lo=1, Hi=0, T0="TextsA", T1="TextsB", T2="TextsC", Bodies="BodiesB"),
+    "thorough": [dict(Progs="wide_v1", DSets="named", Lo=1, Hi=0, T0="TextsA", T1="TextsB", T2="TextsOne", Bodies="BodiesB"),
+                 dict(Progs="wide_v2", DSets="named", Lo=1, Hi=0, T0="TextsA", T1="TextsB", T2="TextsOne", Bodies="BodiesB"),
+                 dict(Progs="wide_v3", DSets="named", Lo=1, Hi=0, T0="TextsA", T1="TextsB", T2="TextsOne", Bodies="BodiesB"),
+                 dict(Progs="wide_v4", DSets="named", Lo=1, Hi=0, T0="TextsA", T1="TextsB", T2="TextsOne", Bodies="BodiesB"),
                  dict(Progs="sets", DSets="sweep6", Lo=1, Hi=0, **TXT),
                  dict(Progs="sets", DSets="sampled", Lo=1, Hi=3000, **TXT),
                  dict(Progs="tags", DSets="named", Lo=1, Hi=0, **TXT),
@@ -393,8 +393,8 @@ def _alone_of(alone, h, n, op):
 HIST_RUNS = {
     "quick": [dict(MaxOps=4, NEnvs=2, Vars=ALLVARS, Vars3="{}", Bases="{1, 2, 3, 4}", Wide="FALSE")],
     "thorough": [dict(MaxOps=5, NEnvs=2, Vars=ALLVARS, Vars3="{}", Bases="{1, 2, 3, 4}", Wide="TRUE"),
-                 dict(MaxOps=4, NEnvs=3, Vars='{"role1", "role5", "comments", "custom", "stamp", "lax", "impl"}',
-                      Vars3='{"custom", "stamp", "same", "lax"}', Bases="{1, 2, 4}", Wide="FALSE")],
+                 dict(MaxOps=4, NEnvs=3, Vars='{"role1", "role5", "custom", "stamp", "lax", "impl"}',
+                      Vars3='{"custom", "stamp", "same"}', Bases="{1, 2, 4}", Wide="FALSE")],
 }
 HIST_DEVS = {"quick": ["KeyOmits1", "KeyOmits5", "ParserPerClass"],
              "thorough": ["KeyOmits1", "KeyOmits2", "KeyOmits3", "KeyOmits4", "KeyOmits5", "KeyOmits6", "ParserPerClass", "ParserByHash"]}
@@ -428,7 +428,7 @@ def history_cases(ck: Check, tier: str, results: list, rnd: random.Random):
         if r.violated != "HistoryIndependent":
             raise MachineryError(f"deviation {dv} does not violate HistoryIndependent ({r.violated!r}): vacuous")
     ck.cov["deviation_demo_history"] = ", ".join(HIST_DEVS[tier]) + " each violate HistoryIndependent"
-    cap = 3000 if tier == "quick" else 60000
+    cap = 3000 if tier == "quick" else 40000
     if len(hists) > cap:
         hists = rnd.sample(hists, cap)
     return hists
@@ -502,7 +502,7 @@ def run(tier: str) -> int:
         "base in one delimiter / comment syntax / all delimiters / extra tag / extra filter / missing filter / tolerance / implicit / nothing; "
         "each operation's result through the modelled memo tables = the operation alone")
     phase = ck.cov.setdefault("phase_s", {})
-    singles, session = (24, 200) if tier == "quick" else (200, 500)
+    singles, session = (12, 300) if tier == "quick" else (200, 500)
     pool = _pool()
     try:
         t0 = time.time()
